@@ -150,7 +150,7 @@ impl MintBuilder {
                         if overwrite {
                             mint.0 = amount.0;
                         } else {
-                            mint.0 += amount.0;
+                            mint.0 = Self::checked_mint_sum(mint.0, amount.0)?;
                         }
                     }
                     _ => {}
@@ -174,7 +174,7 @@ impl MintBuilder {
                         if overwrite {
                             mint.0 = amount.0;
                         } else {
-                            mint.0 += amount.0;
+                            mint.0 = Self::checked_mint_sum(mint.0, amount.0)?;
                         }
                     }
                     _ => {}
@@ -182,6 +182,15 @@ impl MintBuilder {
             }
         }
         Ok(())
+    }
+
+    fn checked_mint_sum(current: i128, amount: i128) -> Result<i128, JsError> {
+        let sum = current + amount;
+        // an Int holds a CBOR int: -2^64 ..= 2^64 - 1
+        if sum > u64::MAX as i128 || sum < -(u64::MAX as i128) - 1 {
+            return Err(JsError::from_str("Mint amount overflow"));
+        }
+        Ok(sum)
     }
 
     fn validate_mint_witness(
